@@ -498,12 +498,16 @@ Section Levels.
     /\ ((cells = [] /\ c_depth s = 2 /\ c_tree s = NL rows :: old)
         \/ (c_depth s = 3 /\ c_tree s = NL (NL cells :: rows) :: old)).
 
-  Lemma close_ok_props e ks s s' :
+  (* since the repair of _close_table_cell the span is only parsed when the newest table has
+     a row (otherwise the method returns at once), hence the hypothesis on the tree *)
+  Lemma close_ok_props e ks s s' r0 rws rest :
+    c_tree s = NL (r0 :: rws) :: rest ->
     close_table_cell v e ks s = Ok s' ->
     exists pr g, gather_Pr e ks = Ok pr /\ span_of pr = Ok g.
   Proof.
-    intro H. rewrite close_table_cell_eq in H.
-    bind_inv H as pr Epr. bind_inv H as rows0 E0. bind_inv H as dm Ed. cbv zeta in H.
+    intros Ht H. rewrite close_table_cell_eq in H.
+    bind_inv H as pr Epr. rewrite Ht in H. cbn [as_list bind] in H.
+    bind_inv H as dm Ed. cbv zeta in H.
     bind_inv H as s1 E1. bind_inv H as g Eg. exists pr, g. auto.
   Qed.
 
@@ -545,7 +549,7 @@ Section Levels.
     change (str_eqb tag_TABLE_CELL tag_PARAGRAPH) with false in Ec.
     change (str_eqb tag_TABLE_CELL tag_RUN) with false in Ec.
     change (str_eqb tag_TABLE_CELL tag_TABLE_CELL) with true in Ec. cbv iota in Ec.
-    destruct (close_ok_props _ _ _ _ Ec) as (pr & g & Epr & Eg).
+    destruct (close_ok_props _ _ _ _ _ _ _ T3 Ec) as (pr & g & Epr & Eg).
     destruct (close_cell_step_full v e ks s3 pr g (NL new) cells rows old I3 Epr Eg T3 ltac:(lia))
       as (s4' & Ec' & T4 & D4 & S4).
     rewrite Ec in Ec'. injection Ec' as <-. cbv zeta in T4.
